@@ -11,6 +11,12 @@ EXTENDS Grammar
 ReachX(g, start, S, extra) ==
   LET R == ReachableFrom(g, start)
   IN IF S \in R THEN R \cup UNION { ReachableFrom(g, x) : x \in extra } ELSE R
+(* ... and nonterminals named by a lookahead predicate (positive or negated) of a reachable rule are reachable too *)
+RECURSIVE ReachAll(_, _, _, _, _)
+ReachAll(g, R, S, extra, la) ==
+  LET R1 == UNION { ReachableFrom(g, x) : x \in R }
+      R2 == R1 \cup (IF S \in R1 THEN extra ELSE {}) \cup { la[i][2] : i \in { i \in 1..Len(la) : la[i][1] \in R1 } }
+  IN IF R2 = R THEN R ELSE ReachAll(g, R2, S, extra, la)
 RRulesX(g, R) == { r \in RuleIdx(g) : g.rules[r].lhs \in R }
 Rhs(g, r) == CleanRhs(g.rules[r].rhs)
 RECURSIVE NullR(_, _, _)
@@ -123,9 +129,9 @@ AtomReach(g, RR, nl, R, S, sxAtoms, A) ==
   LET A2 == A \cup UNION { AtomDeps(g, RR, nl, R, S, sxAtoms, a) : a \in A }
   IN IF A2 = A THEN A ELSE AtomReach(g, RR, nl, R, S, sxAtoms, A2)
 (* the complement depends on itself: some atom under a complement in S's expression reaches S's own set node *)
-SelfCompl(g, start, S, e) ==
+SelfCompl(g, start, S, e, la) ==
   LET ats == AtomsOf(e)
-      R == ReachX(g, start, S, { a.s : a \in { a \in ats : a.s >= g.nT } })
+      R == ReachAll(g, {start}, S, { a.s : a \in { a \in ats : a.s >= g.nT } }, la)
       RR == RRulesX(g, R)
       nl == NullR(g, RR \ {r \in RR : g.rules[r].lhs = S}, {})
   IN S >= 0 /\ \E a \in NegAtomsOf(e) : SetNode(S) \in AtomReach(g, RR, nl, R, S, ats, {a})
